@@ -1,8 +1,37 @@
-// commands for reason
+// commands for reason:  bw|<goal>|<prog>|<depth>  with goal in halt, blank, spin.
+// Calls the real code through the public `Backward` trait of /repo/src/reason.rs.
+// The model-only counterfactual variants (bw_nodrop, bw_fullparams) have no
+// counterpart in the real code: not handled here.
 use crate::*;
+
+use crate::reason::{Backward, BackwardResult};
+
+fn string_of_bw(r: &BackwardResult) -> String {
+    match r {
+        BackwardResult::Init => "init".to_string(),
+        BackwardResult::LinRec => "linrec".to_string(),
+        BackwardResult::Spinout => "spinout".to_string(),
+        BackwardResult::StepLimit => "step_limit".to_string(),
+        BackwardResult::DepthLimit => "depth_limit".to_string(),
+        BackwardResult::Refuted(step) => format!("refuted:{step}"),
+    }
+}
+
+fn cmd_bw(goal: &str, prog: &str, depth: &str) -> String {
+    let comp = CompProg::from_str(prog);
+    let depth: usize = depth.parse().unwrap();
+    let r = match goal {
+        "halt" => comp.cant_halt(depth),
+        "blank" => comp.cant_blank(depth),
+        "spin" => comp.cant_spin_out(depth),
+        _ => return format!("HARNESS-ERROR:bad goal {goal}"),
+    };
+    string_of_bw(&r)
+}
 
 pub fn dispatch(fields: &[&str]) -> Option<String> {
     match fields {
+        ["bw", goal, prog, depth] => Some(cmd_bw(goal, prog, depth)),
         _ => None,
     }
 }
